@@ -374,6 +374,17 @@ theorem rebuildIndexes_dirty (m : Mem) (embs : List VecEnt) (ins : List Nat) (ft
   · show ((Mem.rebuildLex { m with dataEnd := m.payloadEnd, time := some (timeEntries m.frames) } ins ft).rebuildVec embs).dirty = _
     rw [rebuildVec_dirty, rebuildLex_dirty]
 
+theorem Keeps.within {m' m : Mem} (h : Keeps m' m) (w : Within m.frames m.payloadEnd) :
+    Within m'.frames m'.payloadEnd := by rw [h.frames, h.pe]; exact w
+
+theorem rebuildOrFlush_keeps (ma : Mem) (δ : Delta) (ft : Nat) :
+    Keeps (if δ.nonEmpty then ma.rebuildIndexes δ.embs δ.inserted ft else ma.flushTantivy ft) ma := by
+  split
+  · exact rebuildIndexes_keeps ..
+  · exact flushTantivy_keeps ..
+
+theorem persistSketch_keeps (m : Mem) : Keeps m.persistSketch m := ⟨rfl, rfl, rfl, rfl⟩
+
 theorem checkpoint_keeps (m : Mem) : Keeps m.checkpoint m := ⟨rfl, rfl, rfl, rfl⟩
 theorem checkpoint_pending (m : Mem) : m.checkpoint.pending = [] := rfl
 
